@@ -22,6 +22,11 @@ pub const KF_SLOT_GAP: &str = "kf:c26-roundtrip-fails-after-tracked-struct-delet
 /// Derived memo and is never re-executed when the untracked state changes.
 pub const KF_UNTRACKED_LOST: &str = "kf:c26-untracked-read-of-nonpersisted-dependency-lost";
 pub const KF_READ_LOCK: &str = "kf:c26-serialization-read-locks-unverified-tracked-structs";
+/// Listed finding: a persisted memo that is not verified in the snapshot revision is serialized
+/// with the flattened edges of its non-persisted callee's *newer* execution (the callee re-ran
+/// because its interned value had been reclaimed and interned the value again under a new id).
+/// The restored memo validates against those edges although its value (the reclaimed id) is stale.
+pub const KF_FLATTEN_STALE: &str = "kf:c26-flattened-edges-of-stale-memo-from-newer-callee-execution";
 
 pub struct Persisted {
     inner: Box<dyn Oracle>,
@@ -54,6 +59,13 @@ pub struct Persisted {
     /// some persisted key's last execution called such a key
     untracked_lost: bool,
     read_lock_manifested: bool,
+    /// last revision in which the key's body ran
+    exec_rev: HashMap<LKey, u32>,
+    /// calls of the key's last execution
+    calls_last: HashMap<LKey, Vec<LKey>>,
+    /// at the snapshot: an unverified persisted memo whose non-persisted callee subtree re-ran
+    /// after the memo was last verified, with interned slots reclaimed before the snapshot
+    flatten_stale: bool,
 }
 
 impl Persisted {
@@ -80,6 +92,9 @@ impl Persisted {
             untracked_np: Default::default(),
             untracked_lost: false,
             read_lock_manifested: false,
+            exec_rev: Default::default(),
+            calls_last: Default::default(),
+            flatten_stale: false,
         }
     }
 }
@@ -130,7 +145,11 @@ impl Oracle for Persisted {
                 }
                 Rec::Ev(_, Ev::DidReuseInterned(_)) => self.had_interned_reuse = true,
                 Rec::Ev(_, Ev::DidDiscard(dk)) => {
-                    if Some(dk.ing) == self.ent_ing {
+                    // slot indices are unique across the whole table, so a discarded id that is a
+                    // live struct of ours is a struct deletion (stale output of a re-executed
+                    // creator, or output of a memo dropped with its reclaimed interned key)
+                    if Some(dk.ing) == self.ent_ing || (self.live_ix.contains(&ix(dk.id)) && cx.ix.ents.contains_key(&dk.id)) {
+                        self.ent_ing = Some(dk.ing);
                         self.had_deleted_struct = true;
                         self.live_ix.remove(&ix(dk.id));
                         self.freed_ix.insert(ix(dk.id));
@@ -154,6 +173,8 @@ impl Oracle for Persisted {
                 }
                 Rec::End(rec) => {
                     self.verified.insert(rec.key, cx.rev);
+                    self.exec_rev.insert(rec.key, cx.rev);
+                    self.calls_last.insert(rec.key, rec.calls.clone());
                     self.untracked_last.insert(rec.key, rec.untracked);
                     if persisted_key(prog, zero0, rec.key) && rec.calls.iter().any(|c| !persisted_key(prog, zero0, *c)) {
                         self.persisted_over_nonpersisted = true;
@@ -190,6 +211,26 @@ impl Oracle for Persisted {
                 if unverified {
                     self.tainted_until_write = true;
                     self.taints += 1;
+                }
+                // listed finding KF_FLATTEN_STALE
+                if self.had_interned_reuse {
+                    for (k, vr) in self.verified.iter() {
+                        if *vr >= cx.rev_before || !persisted_key(prog, zero0, *k) {
+                            continue;
+                        }
+                        // non-persisted subtree below k
+                        let mut stack: Vec<LKey> = self.calls_last.get(k).cloned().unwrap_or_default();
+                        let mut seen: BTreeSet<LKey> = BTreeSet::new();
+                        while let Some(c) = stack.pop() {
+                            if persisted_key(prog, zero0, c) || !seen.insert(c) {
+                                continue;
+                            }
+                            if self.exec_rev.get(&c).copied().unwrap_or(0) > *vr {
+                                self.flatten_stale = true;
+                            }
+                            stack.extend(self.calls_last.get(&c).cloned().unwrap_or_default());
+                        }
+                    }
                 }
                 if let Err(p) = real {
                     // listed finding: a deleted tracked-struct slot precedes a live one
@@ -240,6 +281,13 @@ impl Oracle for Persisted {
                 }
             }
         }
+        if self.snapshot_seen && self.flatten_stale {
+            for x in inner.iter_mut() {
+                if x.rule == "value-mismatch" {
+                    x.rule = KF_FLATTEN_STALE.to_string();
+                }
+            }
+        }
         out.extend(inner);
         out
     }
@@ -255,6 +303,9 @@ impl Oracle for Persisted {
         }
         if self.untracked_lost && self.snapshot_seen {
             l.push("kf-c26-untracked-via-nonpersisted");
+        }
+        if self.flatten_stale {
+            l.push("kf-c26-stale-memo-over-rerun-nonpersisted-callee");
         }
         if self.snapshot_seen && self.revs_before.len() >= 2 && (self.had_deleted_struct || self.had_interned_reuse) && self.persisted_over_nonpersisted && self.gets_after > 0 {
             l.push("nontrivial");
